@@ -1679,15 +1679,17 @@ impl StorageEngine {
         } else {
             // Create new hash
             let mut hash = HashMap::new();
-            let len = field_values.len();
+            let mut added = 0;
             for (field, value) in field_values {
-                hash.insert(field, value);
+                if hash.insert(field, value).is_none() {
+                    added += 1;
+                }
             }
             
             let stored_value = StoredValue::new(Value::Hash(hash));
             shard_guard.data.insert(key.clone(), stored_value);
             shard_guard.mark_modified(&key);
-            len
+            added
         };
         
         Ok(fields_added)
